@@ -3628,10 +3628,14 @@ def to_base(lhs, rhs, ctx):
         rhs = list(range(0, int(rhs)))
     else:
         rhs = iterable(rhs, ctx=ctx)
-    if len(rhs) == 1 or lhs == 0:
+    if len(rhs) == 1:
         maximal_exponent = lhs
     else:
-        maximal_exponent = int(log_mold_multi(lhs, len(rhs), ctx))
+        # exact: a floating-point logarithm fails for 0 and overflows
+        # for integers beyond the float range
+        maximal_exponent = 0
+        while len(rhs) ** (maximal_exponent + 1) <= lhs:
+            maximal_exponent += 1
 
     res = []
     for i in range(maximal_exponent, -1, -1):
